@@ -89,11 +89,35 @@ def normalize_adjacent_tags(text: str) -> str:
     return _adjacent_tags_re.sub(add_space, text)
 
 
-def denormalize_adjacent_tags(text: str) -> str:
+# Pattern to find a closing delimiter followed (possibly after whitespace) by an opening one
+_tag_boundary_re: re.Pattern[str] = re.compile(
+    rf"(?:{SINGLE_JINJA_TAG.close_re})(\s*)(?={SINGLE_JINJA_TAG.open_re})|"
+    rf"(?:{SINGLE_JINJA_COMMENT.close_re})(\s*)(?={SINGLE_JINJA_COMMENT.open_re})|"
+    rf"(?:{SINGLE_JINJA_VAR.close_re})(\s*)(?={SINGLE_JINJA_VAR.open_re})|"
+    rf"(?:{SINGLE_HTML_COMMENT.close_re})(\s*)(?={SINGLE_HTML_COMMENT.open_re})"
+)
+
+
+def _tag_boundary_gaps(text: str) -> list[str]:
+    """The whitespace found at each boundary between two consecutive tags of the same kind."""
+    return [next(g for g in m.groups() if g is not None) for m in _tag_boundary_re.finditer(text)]
+
+
+def denormalize_adjacent_tags(text: str, original: str | None = None) -> str:
     """
     Remove spaces between adjacent tags that were added during word splitting.
     This restores original adjacency for paired tags like `{% field %}{% /field %}`.
+
+    If the `original` (unwrapped) text is given, a space is only removed where the
+    original had the two tags directly adjacent, so tags that were written with a
+    space between them keep it.
     """
+    keep: list[bool] | None = None
+    if original is not None:
+        original_gaps = _tag_boundary_gaps(original)
+        if len(original_gaps) == len(_tag_boundary_gaps(text)):
+            keep = [gap != "" for gap in original_gaps]
+    boundary = -1
 
     def remove_space(match: re.Match[str]) -> str:
         groups = match.groups()
@@ -102,7 +126,18 @@ def denormalize_adjacent_tags(text: str) -> str:
                 return groups[i] + groups[i + 1]
         return match.group(0)
 
-    return _denormalize_tags_re.sub(remove_space, text)
+    if keep is None:
+        return _denormalize_tags_re.sub(remove_space, text)
+
+    def fix_boundary(match: re.Match[str]) -> str:
+        nonlocal boundary
+        boundary += 1
+        gap = next(g for g in match.groups() if g is not None)
+        if gap == " " and not keep[boundary]:
+            return match.group(0)[:-1]
+        return match.group(0)
+
+    return _tag_boundary_re.sub(fix_boundary, text)
 
 
 def _is_tag_only_line(line: str) -> bool:
